@@ -68,6 +68,39 @@ CLAIMS.update({
          "Partial: the step from the policy to 'write-free process' is the translator's abstraction (trusted); CPython/OpenSSL runtime behaviour under threads is observed, not proved."),
 })
 
+CLAIMS.update({
+ "C01": ("Theorem C01_roundtrip: for every lawful cipher pair, version A-D, KBPK, header_ok header (any fields, reserved, any optional blocks other than a pad id), key, mask and tape: "
+         "kb_wrap = Ok s -> unwrap kbpk s = Ok (h, key) - every field and the ordered block list; also through the object API from ANY prior header state, through header strings, and wrap leaves the "
+         "state unchanged (C01_wrap_pure). KBPK-size and key-length side conditions are derived from success, not assumed. Correspondence: impl unwrap(wrap(x)) and header-unchanged over versions x KBPK "
+         "sizes x layouts (251/252, 97-100 blocks, near 9999) x key lengths to 4900 x mask classes; model run with the recovered tape gives the same verdict and result.", TECH,
+         "Premise header_ok excludes caller blocks whose id is a pad id (necessity witness C01_pb_premise_needed)."),
+ "C02": ("Reduction, not a cryptographic proof: C02_accept_iff characterises exactly when unwrap returns a key - length field = true length, block multiple, MAC and key data well-formed hex of the right sizes, and "
+         "tag = CMAC (B/D) / leftmost 4 bytes of CBC-MAC (A/C) under the KBAK derived from the WHOLE KBPK over the ENTIRE header text (length field, count, reserved, every optional block) followed by the whole key data, "
+         "compared over the full MAC length; binding injectivity (partial); wrong length field / truncation rejected. Hence accepting a string that differs from every genuine block is a MAC forgery. "
+         "A machine-checked witness (C02_not_structural) shows the claim cannot follow from cipher lawfulness alone. Correspondence: accept/reject verdict impl vs model vs an independent reference over the tamper space.", TECH,
+         "Partial by nature: unforgeability of CMAC / CBC-MAC is assumed, not proved. bytes.fromhex skips white space in the binary section (boundary documented in DESIGN.md)."),
+ "C03": ("Theorems, for every lawful cipher pair: psec's hand-built subkeys = SP 800-38B K1/K2; b/d_generate_mac = CMAC over header ++ key data; b_derive / d_derive = the TR-31 counter-mode KDF with the 2-key/3-key/AES-128/192/256 "
+         "indicators (Spec/TR31.v); c_derive = variants 0x45/0x4D; A/C MAC = leftmost 4 bytes of CBC-MAC; forward: every wrap output is a legal Spec encoding that the Spec opens; reverse: EVERY legal Spec encoding "
+         "(short/extended lengths with any length-of-length, any pad blocks, hex case, extra key-padding blocks incl. none) is unwrapped by the model to the same header and key. Spec validated inside Coq against RFC 4493 / "
+         "SP 800-38B vectors and six third-party key blocks. Correspondence: psec<->independent Python reference (cryptography's CMAC) in both directions with randomised encoding freedoms; model text = impl text byte for byte.", TECH,
+         "Spec/CMAC.v and Spec/TR31.v are my transcription of SP 800-38B and TR-31:2018."),
+ "C14": ("Model theorems: for EVERY tape, format 3 fill = the used tape prefix (so in A-F, position by position) and tape -> block is injective on the used prefix; format 4 tail = tape verbatim, head independent of it; TR-31 "
+         "clear key data = length ++ key ++ tape, wrap succeeds only for a tape of exactly pad_len + extra bytes, tape -> key block injective for A/C, B and D. What no model can say - that the tape is drawn afresh from the OS "
+         "generator - is observed at run time in a separate interpreter with os.urandom / random._urandom wrapped before psec is imported: OS bytes drawn >= fill, random state untouched, alphabet, per-position frequencies "
+         "within a Hoeffding bound (< 2^-60 false alarm), freshness across runs, random.seed(0) and fork.",
+         "Coq proof over the model with an explicit random tape + runtime entropy-provenance monitor + model/implementation correspondence (exists-tape)",
+         "Partial: provenance/freshness of the entropy source is monitored, not proved; the OS generator itself is trusted."),
+ "C15": ("Theorems for ALL strings (any code points), ALL KBPK byte strings, all keys/masks and every prior object state: header_load, unwrap, KeyBlock.unwrap, wrap with a header string and wrap with a Header object return Ok or "
+         "HeaderError/KeyBlockError - never another exception (every partial Python primitive the code calls is modelled partial and shown guarded); invariants preserved by every operation; reachable-state form. Termination: all model "
+         "functions are structural. The pinned pre-fix behaviour is refuted by a machine-checked witness (C15_legacy_refuted). Correspondence: bucket of impl vs model over grammar-aware hostile mutations, KBPK lengths 0..40, random Unicode; "
+         "impl additionally run under a 5 s alarm.", TECH,
+         "Genuine defect repaired in /repo by commit c05e172 (fix:), recorded as 'fixed:' in known_findings.txt. del blocks[id] raising KeyError is dict behaviour, outside the property."),
+ "C16": ("Theorems accepts_exactly (dom_f args) (f args) for every public function outside tr31: inside the explicitly written documented domain (ASCII 0x30-0x39 digits, explicit lengths, one hex pad character, window inside the PAN, "
+         "key/IV/data sizes) the result is Ok; outside it the result is exactly ValueError - never a crash, never a value - incl. for every draw of the random fill; decoders never crash on any input. Hostile-input Examples by vm_compute. "
+         "Correspondence: every text parameter x lengths around each bound x hostile alphabet, byte parameters all lengths 0..40, verdict of impl and model vs independently written domain predicates.", TECH,
+         "Negative Python ints for window/length arguments are outside the model's typed domain and unspecified by the property. Empty IBM 3624 window accepted at any offset (boundary reading)."),
+})
+
 checks = []
 for p in props:
     pid = p["id"]
